@@ -70,6 +70,12 @@ CloseActive ==
   /\ fresh' = TRUE /\ chan' = Append(chan, "dump")
   /\ UNCHANGED <<dirty, deferred, deadline, task, progress>>
 
+\* a write filled the active blob: the worker is asked to switch it
+Overflow ==
+  /\ reqs < MaxReq /\ reqs' = reqs + 1
+  /\ chan' = Append(chan, "update")
+  /\ UNCHANGED <<dirty, fresh, deferred, deadline, task, progress>>
+
 \* ---- worker ------------------------------------------------------------------------------
 TaskBusy == task \in {"run", "exiting"}          \* !task.is_finished()
 \* try_run_old_blob_indexes_dump_task, as a relation on (task, progress)
@@ -78,27 +84,36 @@ Started == task' = "run" /\ progress' = 0
 \* defer_blob_indexes_dump
 Defer == deferred' = TRUE /\ deadline' = TRUE
 
+\* effect of one message on (deferred, deadline, task, progress)
+MsgDefer == Defer /\ UNCHANGED <<task, progress>>
+MsgDump  == IF TaskBusy THEN UNCHANGED <<task, progress, deferred, deadline>>     \* request dropped
+            ELSE Started /\ UNCHANGED <<deferred, deadline>>
+\* TryUpdateActiveBlob that did switch the active blob: attach to a registered deferred dump,
+\* otherwise dump now, or defer when a task is running
+MsgUpdateSwitched ==
+  IF deferred \/ TaskBusy THEN MsgDefer ELSE Started /\ UNCHANGED <<deferred, deadline>>
+
 WRecv ==
   /\ chan # <<>> /\ chan' = Tail(chan)
-  /\ CASE Head(chan) = "defer" -> Defer /\ UNCHANGED <<task, progress>>
-       [] Head(chan) = "dump"  -> IF TaskBusy THEN UNCHANGED <<task, progress, deferred, deadline>>     \* request dropped
-                                  ELSE Started /\ UNCHANGED <<deferred, deadline>>
-  /\ UNCHANGED <<dirty, fresh, reqs>>
+  /\ CASE Head(chan) = "defer"  -> MsgDefer /\ UNCHANGED fresh
+       [] Head(chan) = "dump"   -> MsgDump /\ UNCHANGED fresh
+       [] Head(chan) = "update" -> \* the worker closes the active blob itself (or finds nothing to switch)
+                                   \/ MsgUpdateSwitched /\ fresh' = TRUE
+                                   \/ UNCHANGED <<deferred, deadline, task, progress, fresh>>
+  /\ UNCHANGED <<dirty, reqs>>
 
-\* the deadline fires (tick_with_deadline, timeout branch) and process_deferred runs
+\* the deadline fires (tick_with_deadline, timeout branch) and process_deferred runs:
+\* the four outcomes as relations on (deferred, deadline, task, progress)
+TimerNothing == ~deferred /\ deadline' = FALSE /\ UNCHANGED <<deferred, task, progress>>
+\* not due yet: the deadline is armed again (cleared afterwards = the re-armed one is lost)
+TimerNotDue  == deferred /\ deadline' = ResetBeforeProcess /\ UNCHANGED <<deferred, task, progress>>
+TimerDueBusy == deferred /\ TaskBusy /\ deferred' = TRUE /\ deadline' = (RearmOnBusy /\ ResetBeforeProcess)
+                /\ UNCHANGED <<task, progress>>
+TimerDueStart == deferred /\ ~TaskBusy /\ deferred' = FALSE /\ deadline' = FALSE /\ Started
+
 WTimer ==
   /\ deadline
-  /\ \/ \* not due yet: the deadline is armed again
-        /\ deferred
-        /\ deadline' = ResetBeforeProcess      \* cleared afterwards = the re-armed one is lost
-        /\ UNCHANGED <<deferred, task, progress>>
-     \/ \* due
-        /\ deferred
-        /\ IF TaskBusy
-           THEN deferred' = TRUE /\ deadline' = (RearmOnBusy /\ ResetBeforeProcess) /\ UNCHANGED <<task, progress>>
-           ELSE deferred' = FALSE /\ deadline' = FALSE /\ Started
-     \/ \* nothing is deferred any more
-        /\ ~deferred /\ deadline' = FALSE /\ UNCHANGED <<deferred, task, progress>>
+  /\ (TimerNothing \/ TimerNotDue \/ TimerDueBusy \/ TimerDueStart)
   /\ UNCHANGED <<chan, dirty, fresh, reqs>>
 
 \* ---- the dump task ---------------------------------------------------------------------
@@ -116,7 +131,7 @@ TFinish ==
 Idle == chan = <<>> /\ ~deadline /\ task \in {"none", "finished"}
 WStutter == Idle /\ UNCHANGED wvars
 
-WNext == (\E b \in Blobs : DeleteInClosed(b)) \/ CloseActive \/ WRecv \/ WTimer \/ TStep \/ TFinish \/ WStutter
+WNext == (\E b \in Blobs : DeleteInClosed(b)) \/ CloseActive \/ Overflow \/ WRecv \/ WTimer \/ TStep \/ TFinish \/ WStutter
 WSpec == WInit /\ [][WNext]_wvars
 
 \* C13: requested index dumps complete.  DeferredDumpsComplete is about the deferred dumps after
